@@ -50,6 +50,9 @@ type ssut struct {
 	// window: unobserved-operation window, only the mutators' own results are compared (windows.go);
 	// sparse: a long list, Get is probed at the ends, the middle and around powers of two only (big.go)
 	window, sparse bool
+	// untouched: the list is a zero value (new(SList), never NewSingly) that no operation has
+	// been applied to yet; unseen: and no observer (Len/Front/Back/All/Get) has looked at it either
+	untouched, unseen bool
 	// after Swap(i,j) golib may exchange the values (documented) or the nodes: both are the same sequence
 	swapI, swapJ int
 	swapped      bool
@@ -64,6 +67,7 @@ func newSsut(c *ev.Case, keepText bool) *ssut {
 	s := &ssut{c: c, keepText: keepText || c.Logging(), nextVal: 100}
 	if c.Rng.Bool() {
 		s.l = new(listz.SList[int]) // zero value
+		s.untouched, s.unseen = true, true
 		c.Add("slist_zero_value_lists", 1)
 	} else {
 		if !c.Guard("NewSingly", func() { s.l = listz.NewSingly[int]() }) || s.l == nil {
@@ -151,24 +155,69 @@ func (s *ssut) removeModel(i int) (*listz.SNode[int], int) {
 	return e, v
 }
 
-func (s *ssut) classify(i int) {
+// index classes relative to the length of the list at the time of the call
+const (
+	iNegative = iota
+	iEqLen
+	iGtLen
+	iOnly
+	iFirst
+	iLast
+	iMiddle
+	iExtreme // math.MinInt, MinInt+1, MaxInt-1, MaxInt (counted in addition to negative / gt_len)
+	nIdxClasses
+)
+
+var idxClassName = [...]string{"negative", "eq_len", "gt_len", "only_element", "first", "last", "middle", "extreme"}
+
+// the index-taking operations: Swap counts its two arguments separately
+var idxOpName = [...]string{"InsertAt", "InsertNodeAt", "Get", "Remove", "Swap-i", "Swap-j"}
+
+const (
+	xInsertAt = iota
+	xInsertNodeAt
+	xGet
+	xRemove
+	xSwapI
+	xSwapJ
+	nIdxOps
+)
+
+// sidxName[op][class] = "slist_idx/<Op>/<class>" (floors in main.go: every index-based
+// operation of the statement really meets every class of index)
+var sidxName = func() (t [nIdxOps][nIdxClasses]string) {
+	for o := range t {
+		for a := range t[o] {
+			t[o][a] = "slist_idx/" + idxOpName[o] + "/" + idxClassName[a]
+		}
+	}
+	return
+}()
+
+func (s *ssut) classify(x, i int) {
 	c := s.c
 	n := len(s.vals)
+	var a int
 	switch {
 	case i < 0:
-		c.Add("slist_index_negative", 1)
+		a = iNegative
 	case i == n:
-		c.Add("slist_index_eq_len", 1)
+		a = iEqLen
 	case i > n:
-		c.Add("slist_index_gt_len", 1)
+		a = iGtLen
 	case i == 0 && n == 1:
-		c.Add("slist_index_only_element", 1)
+		a = iOnly
 	case i == 0:
-		c.Add("slist_index_first", 1)
+		a = iFirst
 	case i == n-1:
-		c.Add("slist_index_last", 1)
+		a = iLast
 	default:
-		c.Add("slist_index_middle", 1)
+		a = iMiddle
+	}
+	c.Add("slist_index_"+idxClassName[a], 1)
+	c.Add(sidxName[x][a], 1)
+	if i <= math.MinInt+1 || i >= math.MaxInt-1 {
+		c.Add(sidxName[x][iExtreme], 1)
 	}
 }
 
@@ -185,6 +234,13 @@ func (s *ssut) apply(op sop) bool {
 	if !s.quiet {
 		c.Add("slist_ops", 1)
 		c.Add("slist_op/"+sopName[op.code], 1)
+	}
+	if s.untouched && op.code != sSetValue {
+		c.Add("slist_zero_value_first_op/"+sopName[op.code], 1)
+		if s.unseen {
+			c.Add("slist_unobserved_zero_value_first_op/"+sopName[op.code], 1)
+		}
+		s.untouched = false
 	}
 	res := ""
 	switch op.code {
@@ -205,7 +261,7 @@ func (s *ssut) apply(op sop) bool {
 		}
 	case sInsertAt:
 		if !s.quiet {
-			s.classify(op.i)
+			s.classify(xInsertAt, op.i)
 		}
 		if !c.Guard(name, func() { l.InsertAt(op.i, op.v) }) {
 			return false
@@ -219,10 +275,11 @@ func (s *ssut) apply(op sop) bool {
 		}
 		if op.eOld {
 			c.Add("slist_node_reinserted_after_removal", 1)
+			c.Add("slist_node_reinserted_after_removal/"+sopName[op.code], 1)
 		}
 		v := op.e.Value
 		if op.code == sInsertNodeAt && !s.quiet {
-			s.classify(op.i)
+			s.classify(xInsertNodeAt, op.i)
 		}
 		if !c.Guard(name, func() {
 			switch op.code {
@@ -247,12 +304,13 @@ func (s *ssut) apply(op sop) bool {
 		s.nontriv++
 	case sGet:
 		if !s.quiet {
-			s.classify(op.i)
+			s.classify(xGet, op.i)
 		}
 		var got *listz.SNode[int]
 		if !c.Guard(name, func() { got = l.Get(op.i) }) {
 			return false
 		}
+		s.unseen = false
 		if s.keepText {
 			res = " -> " + snodeText(got)
 		}
@@ -262,7 +320,7 @@ func (s *ssut) apply(op sop) bool {
 		}
 	case sRemove:
 		if !s.quiet {
-			s.classify(op.i)
+			s.classify(xRemove, op.i)
 		}
 		var got *listz.SNode[int]
 		if !c.Guard(name, func() { got = l.Remove(op.i) }) {
@@ -327,8 +385,8 @@ func (s *ssut) apply(op sop) bool {
 		}
 	case sSwap:
 		if !s.quiet {
-			s.classify(op.i)
-			s.classify(op.j)
+			s.classify(xSwapI, op.i)
+			s.classify(xSwapJ, op.j)
 		}
 		if !c.Guard(name, func() { l.Swap(op.i, op.j) }) {
 			return false
@@ -344,6 +402,14 @@ func (s *ssut) apply(op sop) bool {
 			}
 		} else {
 			c.Add("slist_swap_rejected", 1)
+			switch {
+			case s.inRange(op.j):
+				c.Add("slist_swap_rejected/only-first-index-out-of-range", 1)
+			case s.inRange(op.i):
+				c.Add("slist_swap_rejected/only-second-index-out-of-range", 1)
+			default:
+				c.Add("slist_swap_rejected/both-indices-out-of-range", 1)
+			}
 		}
 	case sSetValue:
 		if !s.inRange(op.i) || s.nodes[op.i] == nil {
@@ -425,6 +491,10 @@ func (s *ssut) check() bool {
 	l := s.l
 	want := len(s.vals)
 	defer func() { s.swapped = false }()
+	if s.untouched {
+		c.Add("slist_untouched_zero_value_observed", 1)
+	}
+	s.unseen = false
 	var n int
 	if !c.Guard("SList.Len", func() { n = l.Len() }) {
 		return false
@@ -670,7 +740,7 @@ func slistEnds(c *ev.Case) {
 	var caseHash uint64
 	var last *ssut
 	build := func() *ssut {
-		s := &ssut{c: c, keepText: want || c.Logging(), nextVal: 100, l: new(listz.SList[int])}
+		s := &ssut{c: c, keepText: want || c.Logging(), nextVal: 100, l: new(listz.SList[int]), untouched: true, unseen: true}
 		c.Logf("---- new fixture: %d nodes, build style %d", n, style)
 		s.quiet = true
 		ok := true
